@@ -144,6 +144,10 @@ def run(ctx):
             if t.get("rpath") in S.remove_fns:
                 k = h.op_origin(t["args"][1])
                 ctx.check(mentions(k, lambda s: s == ("param", 1)), "R04.5", "%s|removes-command-key" % h.name, "the handler removes the key carried by the command", h.where(b), fmt(k))
+    # R04.7 (= R01.4): weight is only ever charged to ids present in the weight map, so a late weight update cannot
+    # re-charge a key whose delete was acknowledged
+    from weight import accounting_flow
+    accounting_flow(ctx, M, "R04.7")
     # release == R05.2 (id from the removed entry)
     import c05
     sub = type(ctx)(ctx.prop, ctx.facts, ctx.tier, ctx.config)
